@@ -3,6 +3,7 @@ import Pendulum.Model.Pickle
 /-! C14 requests (`way` = copy | deepcopy | p0..p5):
   `c14dt <way> <tzref> <name> <wall> <fold>`                       → `ok <wall> <offset> <foldsel> <tzkind> <name> <fixedoff|x>`
   `c14dur <way> <y> <mo> <wk> <d> <h> <mi> <s> <ms> <us>`          → `ok <12 observed ints>`
+  `c14adur <way> <y> <mo> <wk> <d> <h> <mi> <s> <ms> <us>`         → `ok <12 observed ints>` (AbsoluteDuration)
   `c14iv <way> <same> <tzA> <nameA> <wA> <fA> <tzB> <nameB> <wB> <fB> <absolute>` → `ok <start 3> <end 3> <abs> <invert> <len>`
   `c14time <way> <tod> <tzref> <name> <fold>`                      → `ok <tod> <tzkind> <name> <fixedoff|x>`
   `c14date <way> <y> <m> <d>`                                      → `ok <y> <m> <d>`
@@ -55,6 +56,15 @@ def handle (zs : Zones) (ws : List String) : Option String :=
       some (okInts [o.years, o.months, o.weeks, o.rdays, o.hours, o.minutes, o.rsecs, o.micros, b2i o.invert,
                     o.days, o.secs, o.us])
     | _ => none
+  | ["c14adur", way, a, b, c, d, e, g, h, i, j] => do
+    match ints [a, b, c, d, e, g, h, i, j] with
+    | some [y, mo, wk, dd, hh, mi, s, ms, us] =>
+      let v := AbsDur.new dd s us ms mi hh wk y mo
+      let r := if way == "deepcopy" then deepcopyAbs v else rebuildAbs (reduceDur v)
+      let o := r.absObs
+      some (okInts [o.years, o.months, o.weeks, o.rdays, o.hours, o.minutes, o.rsecs, o.micros, b2i o.invert,
+                    o.days, o.secs, o.us])
+    | _ => none
   | ["c14iv", way, same, ra, na, wa, fa, rb, nb, wb, fb, ab] => do
     let tza ← parseTz zs ra na
     let tzb ← parseTz zs rb nb
@@ -70,7 +80,8 @@ def handle (zs : Zones) (ws : List String) : Option String :=
     let tod ← tod.toInt?
     let t : TimeV := ⟨tod, tz, f == "1"⟩
     -- Time has no `__deepcopy__`: the generic deepcopy is the reduce path with deep-copied arguments
-    let o := (if way == "copy" then rebuildTime (reduceTime t) else pickleTime t).obs
+    let o := (if way == "copy" then rebuildTime (reduceTime t) else if way == "deepcopy" then deepcopyTime t
+              else pickleTime t).obs
     some (s!"ok {o.tod} " ++ tzWords o.tz)
   | ["c14date", _way, y, m, d] => do
     match ints [y, m, d] with
